@@ -995,44 +995,109 @@ def build_harness_parts(quick=True, ppdir=None):
     return out, logs, bad
 
 
-HANGS = []          # (case line, final answer) of every case on which the per-case CPU watchdog fired
+HANGS = []          # (case line, final answer) of every case on which the per-case CPU watchdog fired / that crashed
+# bounded cost of a call that does not return or crashes (shared by all streams / configurations / worker threads of one run):
+STAGE1_CPU_S = 5             # first-stage CPU budget per case inside the harness (operations normally take microseconds)
+CONFIRM_CPU_S = 20           # the case re-run alone
+MAX_CONFIRMED = 3            # confirmed `does not return` per run, then every stream stops
+MAX_OVERRUNS = 6             # first-stage overruns per run, then every stream stops
+MAX_CRASHES_PER_FORM = 4
+import threading as _threading
+HANG_LOCK = _threading.Lock()
+HANG_STATE = {"confirmed": 0, "overruns": 0, "dead_forms": {}, "crashes": {}, "stopped": None}
+NOT_DRIVEN = "NOT-DRIVEN"
+
+
+def call_form(line):
+    """the call form of a case line: ring type (without the way the object was obtained) and operation (without alias pattern)"""
+    t = line.split()
+    return (t[0].split("@")[0], t[2].split(":")[0]) if len(t) >= 3 else ("?", "?")
 
 
 def run_impl(parts, cases_lines, rings, timeout=1500):
-    """route every line to the binary that registers its ring, run the four binaries concurrently, restore the order"""
-    import threading
+    """route every line to the binary that registers its ring, run the four binaries concurrently, restore the order.
+    A case on which the harness watchdog fires (DOES-NOT-RETURN after STAGE1_CPU_S of CPU) is re-run alone with CONFIRM_CPU_S;
+    once confirmed, its call form is not driven any more in this run (answer NOT-DRIVEN); after MAX_CONFIRMED confirmations or
+    MAX_OVERRUNS overruns every stream stops.  A crash (CRASHED, from the harness's signal handler) is a failing input; after
+    MAX_CRASHES_PER_FORM crashes a form is not driven any more."""
+    import threading, subprocess
     idx = {1: [], 2: [], 3: [], 4: []}
     for i, r in enumerate(rings):
         idx[ring_part(r)].append(i)
     out = [None] * len(cases_lines)
     status = {}
+    env1 = dict(os.environ, C03_CASE_CPU_S=str(STAGE1_CPU_S))
+
+    def prune(todo):
+        """drop (answer NOT-DRIVEN) the cases of dead forms, all of them once the run is stopped"""
+        keep = []
+        with HANG_LOCK:
+            stopped, dead = HANG_STATE["stopped"], dict(HANG_STATE["dead_forms"])
+        for i in todo:
+            f = call_form(cases_lines[i])
+            if stopped:
+                out[i] = NOT_DRIVEN + " (streams stopped: %s)" % stopped
+            elif f in dead:
+                out[i] = NOT_DRIVEN + " (%s)" % dead[f]
+            else:
+                keep.append(i)
+        return keep
 
     def work(k):
         if not idx[k]:
             status[k] = (0, "")
             return
-        todo = list(idx[k])
+        todo = prune(list(idx[k]))
         errs = ""
         rc = 0
         while todo:
-            rc, o, e = vf.run_lines(parts[k], "".join(cases_lines[i] for i in todo), timeout=timeout)
-            errs += e
-            if rc == 3 and o and o[-1].strip() == "DOES-NOT-RETURN" and len(o) <= len(todo):
-                # the per-case CPU watchdog of the harness fired on case todo[len(o)-1]: re-run it alone with five times the budget
+            try:
+                pr = subprocess.run([parts[k]], input="".join(cases_lines[i] for i in todo), stdout=subprocess.PIPE, stderr=subprocess.PIPE,
+                                    universal_newlines=True, timeout=timeout, env=env1, errors="replace")
+                rc, o, e = pr.returncode, pr.stdout.splitlines(), pr.stderr
+            except subprocess.TimeoutExpired:
+                rc, o, e = 124, [], "[timeout]"
+            errs += e[-2000:]
+            last = o[-1].strip() if o else ""
+            if rc in (3, 4) and last in ("DOES-NOT-RETURN", "CRASHED") and len(o) <= len(todo):
                 for i, l in zip(todo, o[:-1]):
                     out[i] = l
                 j = todo[len(o) - 1]
-                budget = int(os.environ.get("C03_CASE_CPU_S", "20"))
-                import subprocess
-                try:
-                    pr = subprocess.run([parts[k]], input=cases_lines[j], stdout=subprocess.PIPE, stderr=subprocess.PIPE, universal_newlines=True,
-                                        timeout=timeout, env=dict(os.environ, C03_CASE_CPU_S=str(5 * budget)))
-                    o1 = pr.stdout.splitlines()
-                except subprocess.TimeoutExpired:
-                    o1 = []
-                out[j] = o1[0] if o1 and o1[0].strip() != "DOES-NOT-RETURN" else "DOES-NOT-RETURN (no answer within %d s of CPU time)" % (5 * budget)
-                HANGS.append((cases_lines[j].strip(), out[j]))
-                todo = todo[len(o):]
+                form = call_form(cases_lines[j])
+                if last == "CRASHED":
+                    out[j] = "CRASHED (fatal signal inside the call)"
+                    with HANG_LOCK:
+                        n = HANG_STATE["crashes"][form] = HANG_STATE["crashes"].get(form, 0) + 1
+                        if n >= MAX_CRASHES_PER_FORM:
+                            HANG_STATE["dead_forms"].setdefault(form, "form crashed %d times" % n)
+                    HANGS.append((cases_lines[j].strip(), out[j]))
+                else:
+                    with HANG_LOCK:
+                        HANG_STATE["overruns"] += 1
+                        # one confirmation at a time (the lock is held while the case is re-run alone: a hang must not cost
+                        # N workers x budget), none for a form that is already dead, none beyond the cap
+                        if form in HANG_STATE["dead_forms"]:
+                            out[j] = NOT_DRIVEN + " (%s)" % HANG_STATE["dead_forms"][form]
+                        elif HANG_STATE["stopped"] or HANG_STATE["confirmed"] >= MAX_CONFIRMED:
+                            out[j] = NOT_DRIVEN + " (overran %d s of CPU; confirmation cap reached)" % STAGE1_CPU_S
+                        else:
+                            try:
+                                p1 = subprocess.run([parts[k]], input=cases_lines[j], stdout=subprocess.PIPE, stderr=subprocess.PIPE,
+                                                    universal_newlines=True, timeout=20 * CONFIRM_CPU_S,
+                                                    env=dict(os.environ, C03_CASE_CPU_S=str(CONFIRM_CPU_S)))
+                                o1 = p1.stdout.splitlines()
+                            except subprocess.TimeoutExpired:
+                                o1 = []
+                            if o1 and o1[0].strip() not in ("DOES-NOT-RETURN", "CRASHED"):
+                                out[j] = o1[0]            # slow, but it returns: an ordinary answer
+                            else:
+                                out[j] = "DOES-NOT-RETURN (no answer within %d s of CPU time, re-run alone)" % CONFIRM_CPU_S
+                                HANG_STATE["confirmed"] += 1
+                                HANG_STATE["dead_forms"][form] = "%s::%s does not return (confirmed on: %s)" % (form[0], form[1], cases_lines[j].strip())
+                                HANGS.append((cases_lines[j].strip(), out[j]))
+                        if not HANG_STATE["stopped"] and (HANG_STATE["confirmed"] >= MAX_CONFIRMED or HANG_STATE["overruns"] >= MAX_OVERRUNS):
+                            HANG_STATE["stopped"] = "%d confirmed does-not-return, %d first-stage overruns" % (HANG_STATE["confirmed"], HANG_STATE["overruns"])
+                todo = prune(todo[len(o):])
                 rc = 0
                 continue
             if len(o) == len(todo):
@@ -1202,9 +1267,14 @@ def main(tier, replay=None):
         chk.broke("implementation harness failed on info", err)
         return chk.finish()
     info = {}
-    for r, l in zip(ALL_RINGS, out):
-        t = l.split()
-        info[r] = (int(t[0]), int(t[1]))
+    try:
+        for r, l in zip(ALL_RINGS, out):
+            t = l.split()
+            info[r] = (int(t[0]), int(t[1]))
+    except (ValueError, IndexError):
+        chk.fail_input("%s::maxCardinality" % r, "does-not-return", {"ring": r, "p": "0", "op": "info", "args": []}, "min max", l,
+                       "minCardinality()/maxCardinality() of the ring did not answer")
+        return chk.finish()
     chk.cov["advertised_bounds"] = {r: list(v) for r, v in info.items()}
     write_params(info)          # written only if the content changed (vf.write_if_changed)
     if SPLIT_UNREADABLE:
@@ -1366,9 +1436,20 @@ def main(tier, replay=None):
     nbroke = [0]
     dist = {}
     ncmp = {}
+    not_driven = {}
 
     def compare(name, i, got):
         ring, p, op, a = cases[i]
+        if got.startswith(NOT_DRIVEN):
+            not_driven[name] = not_driven.get(name, 0) + 1
+            return
+        if got.startswith("DOES-NOT-RETURN") or got.startswith("CRASHED"):
+            case = {"ring": ring, "p": str(p), "op": op, "args": [str(x) for x in a]}
+            if name != "native":
+                case["config"] = name
+            chk.fail_input("%s::%s" % (ring, op), "does-not-return" if got.startswith("DOES") else "crash", case,
+                           "a result", got, "the call does not return within its CPU-time budget" if got.startswith("DOES") else "the call dies on a fatal signal")
+            return
         case = {"ring": ring, "p": str(p), "op": op, "args": [str(x) for x in a]}
         if name != "native":
             case["config"] = name
@@ -1428,6 +1509,13 @@ def main(tier, replay=None):
         per_cfg[name] = len(idx)
         for i, l in zip(idx, o):
             compare(name, i, l.strip())
+    for n_, v_ in not_driven.items():
+        per_cfg[n_] = per_cfg.get(n_, 0) - v_          # a case that was not driven is not a comparison
+    if not_driven or HANG_STATE["stopped"]:
+        chk.cov["hang_handling"] = {"cases_not_driven": not_driven, "forms_not_driven_any_more": {"%s::%s" % f: w for f, w in HANG_STATE["dead_forms"].items()},
+                                    "streams_stopped": HANG_STATE["stopped"], "first_stage_overruns": HANG_STATE["overruns"],
+                                    "confirmed": HANG_STATE["confirmed"], "budgets_cpu_s": [STAGE1_CPU_S, CONFIRM_CPU_S]}
+        floor_missed.append("cases not driven because a call form does not return / crashes: %s" % not_driven)
     chk.cov["cases_per_configuration"] = per_cfg
     chk.cov["moduli_for_results_landing_on_the_modulus"] = landing_rec
     chk.cov["model_comparisons_per_configuration"] = ncmp
